@@ -38,6 +38,10 @@ CLAIMS = {
    text="Static decision of the reporting clause of incremental flag insertion ('each incremental insertion reports exactly the simplices it created'): in insert_edge_as_flag and every function that receives its output vector, every creation of nodes is followed on every path by the push of those nodes into the output before the next creation or the exit, nothing is pushed that was not created on that path, and a creation that turns out not to have happened (`ins.second` false) must not have been reported. Equality of the complexes built by the three expansion routes, filtration values and blocker maximality are not decided.",
    note="Trusted: clang 14 parser, class-local call resolution by name, the for-all loop idiom. Shares the creation events of C01.",
    tech="structured path rule with pairing/counting (E2n) over the clang AST", ref="DESIGN.md 4/C04"),
+ "C14": dict(
+   text="Static decision of structural clauses of the specialised routines. 2-D: the pre-pairing fill_and_pair is evaluated on every valuation of its neighbour predicates (256 interior + 4 x 32 border leaves, exhaustive for the abstraction) and must pair or mark critical each cell owned by the current square exactly once and touch no cell another square owns - a necessary condition for a correct Morse pre-pairing; the four provisional corner writes must address distinct vertices under the precondition the entry point states (n >= 2: they do not, recorded as a known finding); in the union-find passes, on every valuation of the guard, the exterior cell never receives a parent and the younger cluster dies. 1-D: filtration values are ordered only through the user's comparator and its derived le/ge/gt are correct. The goto state machine of the 1-D routine (a whole-stack invariant) and the pairs produced by the primal/dual passes are not decided.",
+   note="Trusted: clang 14 parser; the ownership convention (a cell belongs to the smallest square containing it; border squares keep only their inner edge and its two vertices); independence of the neighbour predicates. Guards the evaluator cannot interpret are explored both ways.",
+   tech="finite predicate enumeration over the clang AST (exhaustive), linear-form reasoning (Fourier-Motzkin), comparator discipline", ref="DESIGN.md 4/C14"),
 }
 
 NA = {
